@@ -22,6 +22,8 @@ type c16Exec struct {
 	class    string            // mutation / fault class
 	files    map[string]string // files written before the run (relative)
 	mkdirs   []string          // directories created before the run (e.g. the gen path itself)
+	pre      map[string]string // output files present before the run (stale content); not part of the baseline run
+	symlinks map[string]string // symbolic links created before the run (name -> target)
 	args     []string          // fc arguments after pkg_all.foi (relative to the run directory)
 	noPkgAll bool
 	inject   string            // strace injection expression ("" = none)
@@ -29,6 +31,7 @@ type c16Exec struct {
 	faultOut bool              // the fault concerns the output path: leftover partial output tolerated
 	baseline map[string]string // fault-free output to compare with on exit 0 (nil = only existence)
 	heavy    bool              // may cost seconds and a lot of memory on a defective tree
+	devFull  bool              // the output path is /dev/full: exit 0 is a violation whatever is read back
 	scale    bool              // size-scaled input: its cost legitimately grows with the size (own CPU budget; exceeding it is inconclusive)
 	desc     string
 }
@@ -71,6 +74,9 @@ func c16Judge(e *c16Exec, o *c16Obs) (class, what string) {
 		if strings.HasSuffix(a, ".fo") {
 			requested = append(requested, filepath.Join(filepath.Dir(a), "gen_"+strings.TrimSuffix(filepath.Base(a), ".fo")+".go"))
 		}
+	}
+	if o.exit == 0 && e.devFull {
+		return "exit0-incomplete-output", "exit status 0 although no byte of the output could be written (destination /dev/full)"
 	}
 	if o.exit == 0 {
 		for _, g := range requested {
@@ -124,6 +130,12 @@ func c16Run(fc, pkgAll, dir string, e *c16Exec, cpuSec int) *c16Obs {
 	for _, d := range e.mkdirs {
 		os.MkdirAll(filepath.Join(dir, d), 0o755)
 	}
+	for n, c := range e.pre {
+		os.WriteFile(filepath.Join(dir, n), []byte(c), 0o644)
+	}
+	for n, t := range e.symlinks {
+		os.Symlink(t, filepath.Join(dir, n))
+	}
 	var args []string
 	if !e.noPkgAll {
 		args = append(args, pkgAll)
@@ -145,7 +157,7 @@ func c16Run(fc, pkgAll, dir string, e *c16Exec, cpuSec int) *c16Obs {
 		o.straceLog = string(b)
 	}
 	filepath.Walk(dir, func(p string, info os.FileInfo, err error) error {
-		if err != nil || info.IsDir() {
+		if err != nil || !info.Mode().IsRegular() { // (a symbolic link to /dev/full must never be read)
 			return nil
 		}
 		if strings.HasPrefix(filepath.Base(p), "gen_") && strings.HasSuffix(p, ".go") {
@@ -597,6 +609,26 @@ func c16FaultRuns(env *scratch.Env, fc string, tier string) []*c16Exec {
 			}
 		}
 	}
+	// output present beforehand: a stale gen file longer / shorter than the new output must be
+	// replaced completely; a destination that accepts the open but not the write (/dev/full)
+	for _, pn := range names {
+		src := progs[pn]
+		stale := map[string]string{
+			"longer":  strings.Repeat("// stale line of an earlier, longer output\n", len(src)/8+40),
+			"shorter": "// stale\n",
+			"same-prefix": "package main\n\n" + strings.Repeat("// stale tail\n", len(src)/8+40),
+		}
+		for _, k := range []string{"longer", "shorter", "same-prefix"} {
+			e := &c16Exec{class: "stale-output", files: map[string]string{"x.fo": src}, args: []string{"x.fo"}, pre: map[string]string{"gen_x.go": stale[k]}}
+			e.id = "stale-output:" + pn + ":" + k
+			e.desc = "a " + k + " gen_x.go exists before translating " + pn
+			out = append(out, e)
+		}
+		e := &c16Exec{class: "output-fault", files: map[string]string{"x.fo": src}, args: []string{"x.fo"}, symlinks: map[string]string{"gen_x.go": "/dev/full"}, faultOut: true, devFull: true}
+		e.id = "fault:" + pn + ":dev-full"
+		e.desc = "gen_x.go is a symbolic link to /dev/full (open succeeds, every write fails with ENOSPC) while translating " + pn
+		out = append(out, e)
+	}
 	return out
 }
 
@@ -613,7 +645,7 @@ func runC16(r *core.Run, tier string) {
 		return
 	}
 	const cpuBudget = 10
-	r.Rule("a case is one execution of the rebuilt fc binary in a clean directory under RLIMIT_CPU=10 s (normal cost ~10 ms): mutants of ~35 seed programs (truncation at every byte offset, deletion/duplication/swap/replacement of every token, indentation damage per line, dangling comment/string/bracket/keyword tails), random byte strings, a corpus of ill-typed and self-referential definitions, argument-list faults, strace-injected errors on each openat/write/close of the output path, and size-scaled inputs (one construct nested or repeated 10^2..10^6 times: brackets, slice / function / tuple types, operator chains, statements, definitions, cases, fields, literals, comments; own CPU budget of 300 s, exceeding it is inconclusive); judged by: terminates within the CPU budget, no Go runtime fatal error or signal, exit 0 => every requested gen file present (and byte-equal to the fault-free output in fault runs), exit != 0 => diagnostic printed and nothing written for the offending file; non-trivial = the input differs from every seed (all mutants) ; distinct by class + content hash")
+	r.Rule("a case is one execution of the rebuilt fc binary in a clean directory under RLIMIT_CPU=10 s (normal cost ~10 ms): mutants of ~35 seed programs (truncation at every byte offset, deletion/duplication/swap/replacement of every token, indentation damage per line, dangling comment/string/bracket/keyword tails), random byte strings, a corpus of ill-typed and self-referential definitions, argument-list faults, strace-injected errors on each openat/write/close of the output path, an output path that is a link to /dev/full, stale gen files (longer / shorter) present beforehand, and size-scaled inputs (one construct nested or repeated 10^2..10^6 times: brackets, slice / function / tuple types, operator chains, statements, definitions, cases, fields, literals, comments; own CPU budget of 300 s, exceeding it is inconclusive); judged by: terminates within the CPU budget, no Go runtime fatal error or signal, exit 0 => every requested gen file present (and byte-equal to the fault-free output in fault runs), exit != 0 => diagnostic printed and nothing written for the offending file; non-trivial = the input differs from every seed (all mutants) ; distinct by class + content hash")
 	r.Assume("termination is decided as CPU time <= 10 s on inputs <= 64 KiB (three orders of magnitude above normal cost); the wall-clock watchdog only yields 'inconclusive'", "after an injected failure of the output write itself a partial gen file may remain; exit status and diagnostic are still required", "strace -P restricts injection to syscalls on the output path")
 	rng := core.NewRand(r.SeedV, "c16")
 	work := c16Workload(env, tier, rng)
